@@ -106,6 +106,7 @@ def _ops_task(task):
             for ib in range(len(hs)):
                 qb = quants[ib]
                 part.count("quantity_pairs")
+                refs = {}
                 for op in OPS:
                     # the Scalar reference, element by element
                     ref = []
@@ -117,6 +118,7 @@ def _ops_task(task):
                         except Exception as e:
                             ref_exc = e
                             break
+                    refs[op] = (ref, ref_exc)
                     if ref_exc is None:
                         part.add("nontrivial", (ia, ib, op))
                     for ka in KINDS:
@@ -189,6 +191,37 @@ def _ops_task(task):
                                         part.violation(sig + ":values differ from the Scalar results", {"array": got, "scalars": [s.value for s in ref[:n]]}, snippet)
                                         continue
                                     part.add("outcomes", ("equal", type(r.values).__name__))
+                # the SAME operand objects through a sequence of operations (a result must not depend on
+                # what the operands were used for before)
+                for ka in KINDS:
+                    for kb in KINDS:
+                        a = Array.CreateWithQuantity(qa, _mk(ka, VA))
+                        b = Array.CreateWithQuantity(qb, _mk(kb, VB))
+                        done = []
+                        for op in ("*", "/", "+", "-", "//", "*", "+"):
+                            part.count("evaluations")
+                            done.append(op)
+                            ref, ref_exc = refs[op]
+                            try:
+                                r = _apply(op, a, b)
+                            except Exception as e:
+                                if ref_exc is None:
+                                    part.violation("C10:reused operands:%s[%s] , %s[%s]: %s:raised" % (names[ia], ka, names[ib], kb, " then ".join(done)), {"error": repr(e)})
+                                    break
+                                continue
+                            if ref_exc is not None:
+                                part.violation("C10:reused operands:%s[%s] , %s[%s]: %s:accepted what Scalar rejects" % (names[ia], ka, names[ib], kb, " then ".join(done)), {"result": repr(r)})
+                                break
+                            got = [float(v) for v in r.values]
+                            if not (r.GetQuantity() == ref[0].GetQuantity()) or len(got) != 3 or not all(_elem_ok(op, g, x.value) for g, x in zip(got, ref)):
+                                part.violation(
+                                    "C10:reused operands:%s[%s] , %s[%s]: %s:differs from the Scalar results" % (names[ia], ka, names[ib], kb, " then ".join(done)),
+                                    {"array": got, "scalars": [x.value for x in ref], "a_now": repr(a), "b_now": repr(b)},
+                                    "import numpy as np\nfrom mc import worlds\nfrom barril.units import *\nwith worlds.world('posc'):\n    a = Array.CreateWithQuantity(%s, %s)\n    b = Array.CreateWithQuantity(%s, %s)\n    for op in %r:\n        r = eval('a %%s b' %% op)\n    ref = [eval('x %%s y' %% op) for x, y in zip([Scalar.CreateWithQuantity(a.GetQuantity(), v) for v in %r], [Scalar.CreateWithQuantity(b.GetQuantity(), v) for v in %r])]\n    print(r, ref)\n    assert [float(v) for v in r.values] == [x.value for x in ref]\n"
+                                    % (exprs[ia], _mkexpr(ka, VA), exprs[ib], _mkexpr(kb, VB), done, VA, VB),
+                                )
+                                break
+                            part.add("outcomes", ("reused", op))
             if ia == 9:
                 part.sample({"a": names[ia], "b": names[0], "ops": OPS, "containers": KINDS, "lengths": "0..3 x 0..3", "values_a": VA, "values_b": VB})
     return part
@@ -345,7 +378,7 @@ def run(ctx):
     c = ctx.part.counters
     ctx.level = "exploration"
     ctx.rule = (
-        "complete product: ordered quantity pairs of the pool (%s) x 5 operators x 9 container combinations x 16 length pairs, each compared with the element-wise Scalar results; "
+        "complete product: ordered quantity pairs of the pool (%s) x 5 operators x 9 container combinations x 16 length pairs, each compared with the element-wise Scalar results, + the sequence * / + - // * + on ONE pair of operand objects per container combination; "
         "GetValues over every ordered unit pair of %s x 3 containers x lengths 0..3 (+ list/tuple of tuples); FromScalars over every sequence of length 0..3 of 5 scalars x 4 unit choices x 3 category choices x list/generator; "
         "non-trivial = (quantity pair, operator) combinations the Scalar path accepts + converting unit pairs + mixed-unit FromScalars sequences" % ("all 101 depth-2 states" if ctx.thorough else "8 atoms + 10 derived", "every quantity type" if ctx.thorough else "6 quantity types incl. the affine temperature and pressure")
     )
